@@ -74,6 +74,14 @@ def check(run: Run) -> None:
     # ---------------- R2
     _check_entry_points(run, ctx, m)
 
+    # value -> node conversion must not be memoised by value equality (1 == 1.0 == True, 0.0 == -0.0 share a slot)
+    from ..lib import memoised_functions
+
+    for mf, deco in memoised_functions(m):
+        if mf.name in ("as_ast", "as_literal", "function_call") or mf.module.name == "func_adl.util_ast":
+            run.fail("C13.R2", mf, mf.node, f"{mf.name} is memoised with @{deco}: values that compare equal but differ in type or sign (1, 1.0, True; 0.0, -0.0) share one cached node, so an embedded value can come back as a different type - and the cached node object is shared between queries", "no value-keyed cache on value -> AST conversion")
+    run.ok("C13.R2", None, "value -> AST conversion functions are not memoised") if not any(mf.module.name == "func_adl.util_ast" for mf, _d in memoised_functions(m)) else None
+
     # ---------------- R3
     _check_gate(run, ctx, m)
 
